@@ -2,6 +2,8 @@ package main
 
 import (
 	"fmt"
+	"go/token"
+	"os"
 	"go/types"
 	"sort"
 	"strings"
@@ -147,6 +149,13 @@ func (P *Program) typeInvImmutable(prop string) []*Obligation {
 					base, path := storePath(s.Addr)
 					if path == "" || !types.Identical(derefType(base.Type()), tn.Type()) {
 						continue
+					}
+					if os.Getenv("GOWP_DEBUG") == "helper" {
+						i, okp := paramIndexOf(fn, base)
+						fmt.Fprintf(os.Stderr, "helper? %s base=%v (%T) param=%d,%v\n", relName(fn), base, base, i, okp)
+					}
+					if idx, isParam := paramIndexOf(fn, base); isParam && P.constructionHelper(fn, idx) {
+						continue // an unexported helper that only ever receives objects its callers have just allocated
 					}
 					for f := range fields {
 						if pathsConflict(f, path) {
@@ -502,4 +511,92 @@ func storeAfter(gb *ssa.BasicBlock, gi int, st *ssa.Store, al *ssa.Alloc) bool {
 		}
 	}
 	return false
+}
+
+// paramIndexOf: v is parameter idx of fn, or a load of the cell that parameter was spilled to
+// (naive form) and that nothing else is stored into.
+func paramIndexOf(fn *ssa.Function, v ssa.Value) (int, bool) {
+	find := func(p ssa.Value) (int, bool) {
+		for i, q := range fn.Params {
+			if q == p {
+				return i, true
+			}
+		}
+		return 0, false
+	}
+	if i, ok := find(v); ok {
+		return i, true
+	}
+	u, ok := v.(*ssa.UnOp)
+	if !ok || u.Op != token.MUL {
+		return 0, false
+	}
+	cell, ok := u.X.(*ssa.Alloc)
+	if !ok {
+		return 0, false
+	}
+	idx, n := -1, 0
+	for _, b := range fn.Blocks {
+		for _, in := range b.Instrs {
+			if st, ok := in.(*ssa.Store); ok && st.Addr == cell {
+				n++
+				if i, ok := find(st.Val); ok {
+					idx = i
+				}
+			}
+		}
+	}
+	if n == 1 && idx >= 0 {
+		return idx, true
+	}
+	return 0, false
+}
+
+// constructionHelper: fn is an unexported function that is only ever called statically, at least
+// once, and every call passes as argument idx an object the caller itself has just allocated; it
+// is never used as a value. Its stores through that parameter are construction code.
+func (P *Program) constructionHelper(fn *ssa.Function, idx int) bool {
+	dbg := os.Getenv("GOWP_DEBUG") == "helper"
+	if fn.Parent() != nil || fn.Object() == nil || fn.Object().Exported() {
+		if dbg {
+			fmt.Fprintf(os.Stderr, "helper %s: not a plain unexported function\n", relName(fn))
+		}
+		return false
+	}
+	calls := 0
+	for _, caller := range P.ModFuncs {
+		fresh := freshValues(caller)
+		for _, b := range caller.Blocks {
+			for _, in := range b.Instrs {
+				if ci, ok := in.(ssa.CallInstruction); ok && ci.Common().StaticCallee() == fn {
+					if _, isGo := in.(*ssa.Go); isGo {
+						return false
+					}
+					args := ci.Common().Args
+					if idx >= len(args) || !fresh[args[idx]] {
+						if os.Getenv("GOWP_DEBUG") == "helper" {
+							fmt.Fprintf(os.Stderr, "helper %s: arg %d of call in %s is not fresh (%v)\n", relName(fn), idx, relName(caller), args)
+						}
+						return false
+					}
+					calls++
+					continue
+				}
+				if _, isDbg := in.(*ssa.DebugRef); isDbg {
+					continue
+				}
+				for _, op := range in.Operands(nil) {
+					if op != nil && *op == ssa.Value(fn) {
+						if ci, ok := in.(ssa.CallInstruction); !ok || ci.Common().Value != ssa.Value(fn) {
+							if dbg {
+								fmt.Fprintf(os.Stderr, "helper %s: used as a value in %s: %v\n", relName(fn), relName(caller), in)
+							}
+							return false // used as a value
+						}
+					}
+				}
+			}
+		}
+	}
+	return calls > 0
 }
